@@ -13,7 +13,7 @@ Two == {I("Merge", "Merge", 2), I("Merge", "MergeWith", 2), I("Merge", "MergeWit
         I("TakeUntil", "TakeUntil", 2), I("SkipUntil", "SkipUntil", 2),
         I("BufferWhen", "BufferWhen", 2), I("SampleWhen", "SampleWhen", 2), I("ThrottleWhen", "ThrottleWhen", 2), I("WindowWhen", "WindowWhen", 2)}
 Three == {I("Merge", "Merge", 3), I("Merge", "MergeWith2", 3), I("CombineLatest", "CombineLatest3", 3), I("Zip", "Zip3", 3), I("Race", "Race", 3)}
-One == {I("GroupBy", "GroupBy", 1), I("GroupBy", "GroupByI", 1), I("GroupByLeave", "GroupBy", 1)}
+One == {I("GroupBy", "GroupBy", 1), I("GroupBy", "GroupByI", 1), I("GroupBy", "GroupByWithContext", 1), I("GroupBy", "GroupByIWithContext", 1), I("GroupByLeave", "GroupBy", 1), I("GroupByCut", "GroupBy", 1)}
 InstSet == CASE InstSetName = "two" -> Two [] InstSetName = "three" -> Three [] InstSetName = "one" -> One []
              \* the higher arities of the typed families (each arity is its own copy of the code)
              InstSetName = "high" -> {I("Merge", "Merge", 4), I("Merge", "MergeWith3", 4), I("Merge", "MergeWith4", 5), I("Merge", "MergeWith5", 6),
